@@ -1,6 +1,7 @@
 package main
 
 import (
+	"fmt"
 	"go/types"
 	"go/token"
 	"strings"
@@ -649,6 +650,51 @@ func c15Goroutines(c *Ctx) {
 	c.Floor("C15.Q4-goroutine-terminates", 4)
 	// the watcher's exit depends on the receiver's Close waking Next: see receiverCloseSignals
 	receiverCloseSignals(c, "C15.Q4-receiver-close-wakes-next")
+	closeReleasesWhatWasCreated(c, "C15.Q4-receiver-releases-what-it-created")
+	// a timer callback that re-arms its own timer looks at the shutdown signal after doing so: Stop (from Close) does
+	// not reach a callback that is already running, and an unconditional Reset in it brings the timer back to life
+	// after Close has returned — the callback then keeps firing for good
+	{
+		nCb, nReset := 0, 0
+		for _, f := range c.Funcs(dagsyncPkg) {
+			for _, cs := range c.Calls(f.SSA, Call("time.AfterFunc")) {
+				if len(cs.X.Args) != 2 || cs.X.Args[1].V == nil {
+					continue
+				}
+				cb := funcValueTarget(cs.X.Args[1].V)
+				if cb == nil || len(cb.Blocks) == 0 {
+					continue
+				}
+				nCb++
+				for _, rs := range c.Calls(cb, Call("time.Timer).Reset")) {
+					if rs.Fn != cb {
+						continue
+					}
+					nReset++
+					ok, path := pathsFromPass(rs.In, func(in ssa.Instruction) bool {
+						switch v := in.(type) {
+						case *ssa.Select:
+							for _, st := range v.States {
+								if x := c.E(st.Chan); st.Dir == types.RecvOnly && x.Op == "field" && x.Name == "closing" {
+									return true
+								}
+							}
+						case *ssa.UnOp:
+							if x := c.E(v.X); v.Op == token.ARROW && x.Op == "field" && x.Name == "closing" {
+								return true
+							}
+						}
+						return false
+					})
+					c.Check(ok, "C15.Q4-goroutine-terminates", c.short(cb.String())+" › re-armed timer checks for shutdown", rs.In.Pos(), "after Reset the callback tests the closing signal (and stops the timer)", "the timer callback re-arms its timer and returns without looking at the shutdown signal ("+path+"): a callback running while Close stops the timer revives it, and it keeps firing after Close has returned")
+				}
+			}
+		}
+		if nReset == 0 {
+			c.OK("C15.Q4-goroutine-terminates", "dagsync › timer callbacks", token.NoPos, fmt.Sprint(nCb)+" time.AfterFunc callbacks, none re-arms its own timer")
+		}
+	}
+	c.Floor("C15.Q4-receiver-releases-what-it-created", 2)
 	c.Floor("C15.Q4-receiver-close-wakes-next", 1)
 }
 
